@@ -134,5 +134,5 @@ Definition derive_consistent (e : string * list string) : bool :=
     (has "Eq" l && has "Hash" l && has "PartialOrd" l && has "Ord" l)
     || existsb (String.eqb (fst e)) ["MediaPlaylist"; "Line"; "Tag"; "IntoIter"; "ErrorKind"]
   else true.
-Lemma derives_consistent : forallb derive_consistent derive_table = true.
+Lemma derives_consistent : derive_section_ok && forallb derive_consistent derive_table = true.
 Proof. vm_compute. reflexivity. Qed.
